@@ -454,6 +454,53 @@ func (c *ctx) ampProbe() {
 	}
 }
 
+type argStale struct {
+	S string `frugal:"1,default,string"`
+	P *int64 `frugal:"2,optional,i64"`
+	Q *bool  `frugal:"3,optional,bool"`
+}
+
+// staleProbe (C07, D26): "nothing from an earlier message ever appears in a later result", the destination of
+// a *failed* decode included.  Many decodes of a message full of a recognisable byte, dropped and collected;
+// then a message truncated right after the header of an optional scalar pointer field: the field must not
+// point at memory that still holds the earlier messages' bytes (the pointee used to be allocated, from
+// uncleared allocator blocks, before the length check).
+func (c *ctx) staleProbe() {
+	valid := &argStale{S: strings.Repeat("\xa7", 250)}
+	buf := make([]byte, frugal.EncodedSize(valid))
+	if _, err := frugal.EncodeObject(buf, nil, valid); err != nil {
+		c.h.oracle("C07", "staleProbe: "+err.Error())
+		return
+	}
+	rounds := 6
+	if c.tier == "thorough" {
+		rounds = 40
+	}
+	for round := 0; round < rounds; round++ {
+		for i := 0; i < 4000; i++ {
+			var m argStale
+			frugal.DecodeObject(buf, &m)
+		}
+		runtime.GC()
+		runtime.GC()
+		for i := 0; i < 600; i++ {
+			for _, in := range [][]byte{{10, 0, 2}, {10, 0, 2, 1, 2, 3}, {2, 0, 3}} {
+				var dst argStale
+				_, err := frugal.DecodeObject(in, &dst)
+				c.h.stats["staleprobe"]++
+				if err == nil {
+					c.h.oracle("C07", fmt.Sprintf("staleProbe: truncated message %x accepted", in))
+					return
+				}
+				if dst.P != nil && uint64(*dst.P) == 0xa7a7a7a7a7a7a7a7 {
+					c.h.oracle("C07", fmt.Sprintf("after the failed decode of %x the optional field P points at memory never written by it, holding bytes of an earlier message: %#x", in, uint64(*dst.P)))
+					return
+				}
+			}
+		}
+	}
+}
+
 type argErrStorm struct {
 	L []int32          `frugal:"1,default,list<i32>"`
 	S []string         `frugal:"2,default,set<string>"`
